@@ -119,7 +119,9 @@ func (a *IBCAdapter) ParsePacket(
 	}
 
 	return &types.ParsedData{
-		Coin:    sdk.NewCoin(denom, amount),
+		// NOTE: sdk.NewCoin panics on an invalid denom or a negative amount; the coin is
+		// validated when the transfer attributes are created.
+		Coin:    sdk.Coin{Denom: denom, Amount: amount},
 		Payload: *payload,
 	}, nil
 }
